@@ -587,7 +587,8 @@ impl Scriptlet {
             ));
         }
 
-        if let Some(prog) = self.program {
+        // an entry without any item is not a valid header entry
+        if let Some(prog) = self.program.filter(|prog| !prog.is_empty()) {
             records.push(IndexEntry::new(
                 prog_tag,
                 offset,
